@@ -78,6 +78,9 @@ Inductive case :=
 | CBuild (h : heap) (v : hval) (prefix : bytes) (fuel : nat) (det : bool) (o : sobs)
 | CDetect (h : heap) (v : hval) (det : bool) (answer : bool)
 | CDeser (b : bytes) (o : dobs)
+(* the implementation's BuildParamToNative did not return (fatal stack overflow in a child
+   process): the model must still be recursing after [fuel] nested calls, without a success *)
+| CDiverge (h : heap) (v : hval) (fuel : nat)
 | CKey (p : prim) (image : bytes).
 
 Definition case_ok (c : case) : bool :=
@@ -91,6 +94,9 @@ Definition case_ok (c : case) : bool :=
       | DErr e, DObsErr e' => derr_eqb e e'
       | _, _ => false
       end
+  | CDiverge h v fuel =>
+      let r := h_build h fuel v [] in
+      r_oof r && match r_ok r with None => true | Some _ => false end
   | CKey p image => bytes_eqb (prim_bytes p) image
   end.
 
